@@ -249,7 +249,11 @@ def splice_const(repo, rel, name, opts, log, meta):
         raise SpliceError("%s: %s" % (rel, e2))
     meta.append({"file": rel, "item": "const " + name, "repo_lines": [src.count("\n", 0, s) + 1, src.count("\n", 0, e) + 1], "name": name})
     text = src[s:e]
-    if not re.match(r"\s*pub\b", text):
+    m = re.match(r"\s*pub\s*\([^)]*\)\s*", text)
+    if m:
+        log.append({"rule": "visibility", "fn": name, "where": "const", "before": m.group(0).strip(), "after": "pub", "count": 1})
+        text = "pub " + text[m.end():]
+    elif not re.match(r"\s*pub\b", text):
         text = "pub " + text
         log.append({"rule": "visibility", "fn": name, "where": "const", "before": "(private)", "after": "pub", "count": 1})
     return text
